@@ -18,7 +18,7 @@ Proof. unfold out, WriteString; simpl. rewrite rev_app_distr, rev_involutive. re
 Lemma is_nil_false s : s <> [] -> is_nil s = false.
 Proof. destruct s; [congruence|reflexivity]. Qed.
 
-Lemma Ident_rbuf b s : s <> [] -> rbuf (Ident b s) = SP :: qc b :: rev s ++ qo b :: rbuf b.
+Lemma Ident_rbuf b s : s <> [] -> rbuf (Ident b s) = SP :: qc b :: rev (escape_ident (qc b) s) ++ qo b :: rbuf b.
 Proof. destruct s; [congruence|]. intros _. reflexivity. Qed.
 
 Lemma out_Ident b s : s <> [] -> out (Ident b s) = out b ++ render_ident (qo b) (qc b) s ++ [SP].
@@ -41,7 +41,7 @@ Proof. unfold rewriteLastByte. destruct (rbuf b); simpl; auto. Qed.
 
 (* rewriting the last byte right after a non-empty Ident *)
 Lemma rewrite_after_Ident b s c : s <> [] ->
-  rbuf (rewriteLastByte (Ident b s) c) = c :: qc b :: rev s ++ qo b :: rbuf b.
+  rbuf (rewriteLastByte (Ident b s) c) = c :: qc b :: rev (escape_ident (qc b) s) ++ qo b :: rbuf b.
 Proof. intros H. unfold rewriteLastByte. rewrite (Ident_rbuf b s H). reflexivity. Qed.
 
 (** * What [mayQualify] writes *)
@@ -64,14 +64,14 @@ Proof.
     assert (Hcfg : qo (rewriteLastByte b DOT) = qo b /\ qc (rewriteLastByte b DOT) = qc b).
     { unfold rewriteLastByte. rewrite Hr. simpl. auto. }
     destruct Hcfg as [Hq1 Hq2].
-    assert (Hb1 : rbuf b1 = SP :: qc b :: rev n ++ qo b :: DOT :: r).
+    assert (Hb1 : rbuf b1 = SP :: qc b :: rev (escape_ident (qc b) n) ++ qo b :: DOT :: r).
     { unfold b1. rewrite Ident_rbuf by exact Hn. rewrite Hq1, Hq2, Hrb. reflexivity. }
     destruct (Ident_cfg (rewriteLastByte b DOT) n) as (E1 & E2 & E3 & E4 & E5 & E6).
     assert (F : bschema (rewriteLastByte b DOT) = bschema b /\ indent (rewriteLastByte b DOT) = indent b
                 /\ level (rewriteLastByte b DOT) = level b /\ panicked (rewriteLastByte b DOT) = panicked b).
     { unfold rewriteLastByte. rewrite Hr. simpl. auto. }
     destruct F as (F1 & F2 & F3 & F4).
-    specialize (IH b1 (qc b :: rev n ++ qo b :: DOT :: r) HF').
+    specialize (IH b1 (qc b :: rev (escape_ident (qc b) n) ++ qo b :: DOT :: r) HF').
     fold b1 in E1, E2, E3, E4, E5, E6.
     destruct IH as (I1 & I2 & I3 & I4 & I5 & I6 & r' & I7 & I8).
     + rewrite E1. congruence.
@@ -102,7 +102,7 @@ Lemma top_children b top children :
 Proof.
   intros Ht HF.
   destruct (Ident_cfg b top) as (E1 & E2 & E3 & E4 & E5 & E6).
-  pose proof (children_fold (Ident b top) (qo b) (qc b) children (qc b :: rev top ++ qo b :: rbuf b) HF E1 E2
+  pose proof (children_fold (Ident b top) (qo b) (qc b) children (qc b :: rev (escape_ident (qc b) top) ++ qo b :: rbuf b) HF E1 E2
                 (Ident_rbuf b top Ht)) as H.
   simpl in H. destruct H as (I1 & I2 & I3 & I4 & I5 & I6 & r' & I7 & I8).
   repeat split; try congruence.
